@@ -4,23 +4,27 @@ import json
 from check import Result
 
 PROP = "C01"
-TARGETS = ["NetqasmVerif.Props.C01"]
+TARGETS = ["NetqasmVerif.Props.C01", "NetqasmVerif.Props.C02"]
 M = "NetqasmVerif.Props.C01"
 THEOREMS = [(M, "NQ.C01." + n) for n in [
     "operand_roundtrip", "encode_defined_iff_inRange", "instr_roundtrip", "subroutine_roundtrip",
     "probes_match", "probes_cover", "shapes_fit", "nv_unique", "reids_unique",
     "vanilla_clashes_are_known", "nv_reids_no_known_clash", "nv_roundtrip", "reids_roundtrip",
-    "vanilla_roundtrip_partial", "vanilla_counterexample"]]
-TRANSLATORS = ["instr_table"]
-LEANCHECK_EXTRA = ["NetqasmVerif.Props.WireObligations"]
-LEVEL_TEXT = 'Lean theorems: operand/instruction/subroutine round-trip for ALL in-range operand values and subroutines of any length over any table without opcode clash (induction), instantiated for the NV and REIDS tables unconditionally and for vanilla outside the recorded clash (F1). Tie: tables and single-bit encode/decode probes are regenerated from the live classes and re-decided by the kernel; differential stream against the compiled model.'
-LEVEL_NOTE = 'Trusted: Lean kernel; translator + harness; ctypes bitwise linearity. Instructions modelled as (class, operands).'
+    "vanilla_roundtrip_partial", "vanilla_counterexample"]] + [
+    ("NetqasmVerif.Props.C02", "NQ.C02." + n) for n in [
+        "cmd_layouts_canonical", "generic_pack_eq_model", "generic_unpack_eq_model"]]
+TRANSLATORS = ["instr_table", "cmd_layouts"]
+LEANCHECK_EXTRA = ["NetqasmVerif.Props.WireObligations", "NetqasmVerif.Props.CmdLayoutObligations"]
+LEVEL_TEXT = 'Lean theorems: operand/instruction/subroutine round-trip for ALL in-range operand values and subroutines of any length over any table without opcode clash (induction), instantiated for the NV and REIDS tables unconditionally and for vanilla outside the recorded clash (F1). Tie: tables, the ctypes struct layout of every class (from the descriptors; kernel-decided canonical; C02.generic_pack_eq_model / generic_unpack_eq_model: packing through the generic ctypes struct model = the model codec for all values) and single-bit encode/decode probes are regenerated from the live classes and re-decided by the kernel; differential stream against the compiled model.'
+LEVEL_NOTE = 'Trusted: Lean kernel; translators + harness; ctypes stores a field at the offset / bit range its descriptor reports (two\'s complement, little endian) - no linearity assumption. Instructions modelled as (class, operands).'
 TECHNIQUE = 'Lean 4 proof (induction over operands and instruction lists) + kernel-decided generated obligations + differential correspondence'
 TRUSTED = [
     "Lean 4.33 kernel; axioms at most propext, Classical.choice, Quot.sound (audited per theorem)",
     "translate/instr_table.py: rows and single-bit probes read from the live classes",
-    "ctypes structure (de)serialisation is bitwise linear, so single-bit probes plus the all-zero "
-    "encoding determine it (validated by the random correspondence stream)",
+    "translate/cmd_layouts.py: struct used by each class and its leaf layout from the ctypes descriptors",
+    "ctypes stores a field's value at the byte offset / bit range its descriptor reports, two's "
+    "complement, little endian (the equality of that layout with the model codec is a theorem; "
+    "the single-bit probes and the random stream validate the descriptors behaviourally)",
     "harness/codec.py correspondence stream: real serialize/deserialize vs compiled Lean model",
 ]
 ASSUMPTIONS = [
